@@ -57,6 +57,19 @@ def std_tags(nc):
                 boundaries={'all': dict(pool='boundary', picks=list(range(64)), ori=None)})
 
 
+def _digest(m):
+    import hashlib
+    h = hashlib.sha256()
+    parts = [m.p, m.t]
+    for d in (m.boundaries or {}, m.subdomains or {}):
+        for k in sorted(d):
+            parts.append(np.asarray(d[k]))
+    for a in parts:
+        a = np.ascontiguousarray(a)
+        h.update(str(a.dtype).encode() + str(a.shape).encode() + a.tobytes())
+    return h.hexdigest()
+
+
 def body_exhaustive(c, ctx):
     from ..cases import LogCapture, build_mesh, resolve_tags
     from ..oracle.refine import check_refinement
@@ -67,11 +80,20 @@ def body_exhaustive(c, ctx):
     ctx.cls(c['base'], f'nmarked={len(marked)}')
     ctx.nt(0 < len(marked) < m.nelements)
     sig = dict(mesh=desc['cls'], base=c['base'])
+    _ = mt.facets, mt.t2f, mt.boundary_facets()        # a mesh that has been looked at (tables cached) before it is refined
+    h0 = _digest(mt)
     with LogCapture() as logs:
         new = mt.refined(marked)
     check_refinement(ctx, mt, res, new, logs, sig, uniform_k=None, marked=marked)
     if len(marked) == 0 and new.nelements != mt.nelements:
         ctx.fail('empty_marked_changes_mesh', '', **sig)
+    if _digest(mt) != h0:
+        ctx.fail('operand_modified', 'refined(marked) changed the mesh it was applied to', **sig)
+    elif not ctx.failures and mt.nelements <= 16 and desc['cls'] != 'MeshWedge1':
+        # the refined-from mesh serves again (another strategy tried from the same starting point): a uniform step from it
+        with LogCapture() as logs2:
+            new2 = mt.refined()
+        check_refinement(ctx, mt, res, new2, logs2, dict(sig, second='uniform_after_adaptive'), uniform_k=1)
 
 
 # ------------------------------------------------------------------------------ histories
@@ -104,8 +126,16 @@ def apply(s, step, ctx):
         base = dataclasses.replace(old, _boundaries=None, _subdomains=None)
         s.mesh, s.res = resolve_tags(base, step['tags'])
         return
+    if step['op'] == 'back':
+        # return to the mesh the last refinement started from (an adaptive loop that tries several markings from one state)
+        if getattr(s, 'prev', None) is None:
+            raise Reject()
+        s.mesh, s.prev = s.prev, None
+        ctx.cls('op:back')
+        return
     if old.nelements > CAP[s.kind]:
         raise Reject()
+    h0 = _digest(old)
     res_now = dict(subdomains={k: np.asarray(v) for k, v in (old.subdomains or {}).items()},
                    boundaries={k: (np.asarray(v), None) for k, v in (old.boundaries or {}).items()})
     with LogCapture() as logs:
@@ -126,6 +156,9 @@ def apply(s, step, ctx):
             check_refinement(ctx, old, res_now, new, logs, sig, uniform_k=1)
         else:
             raise ValueError(step['op'])
+    if _digest(old) != h0:
+        ctx.fail('operand_modified', f'{step["op"]} refinement changed the mesh it was applied to', **sig)
+    s.prev = old
     s.nsteps += 1
     ctx.cls(f'op:{step["op"]}')
     if s.nsteps >= 2:
@@ -148,6 +181,10 @@ class RefineMachine(HistoryMachine):
     @rule()
     def uniform(self):
         self.do(dict(op='uniform'))
+
+    @rule()
+    def back(self):
+        self.do(dict(op='back'))
 
     @rule(data=st.data())
     def retag(self, data):
